@@ -30,12 +30,31 @@ class FuncResult:
 
 def expand_defs(contract: Contract) -> Contract:
     """textual let-bindings: contract.ghost['defs'] = {name: expr} substituted into all clauses"""
-    defs = contract.ghost.get("defs") if contract.ghost else None
-    if not defs:
-        return contract
     import copy
 
     c = copy.deepcopy(contract)
+    # clauses may carry a third element: the properties the clause serves -> c.ghost["tags"][label]
+    tags = dict(c.ghost.get("tags", {})) if c.ghost else {}
+
+    def strip(cl):
+        out = []
+        for t in cl:
+            if len(t) == 3:
+                tags[t[0]] = list(t[2])
+            out.append((t[0], t[1]))
+        return out
+
+    c.requires = strip(c.requires)
+    c.ensures = strip(c.ensures)
+    c.raises = {k: strip(v) for k, v in c.raises.items()}
+    for lc in c.loops.values():
+        lc["inv"] = strip(lc.get("inv", []))
+    c.at = [(a[0], a[1], a[2]) if len(a) == 3 else (tags.__setitem__(a[1], list(a[3])) or (a[0], a[1], a[2])) for a in c.at]
+    c.ghost = dict(c.ghost or {})
+    c.ghost["tags"] = tags
+    defs = c.ghost.get("defs")
+    if not defs:
+        return c
 
     def sub(e):
         for _ in range(4):
